@@ -99,43 +99,307 @@ def _module_int_constant(name):
 
 HEALPY_DEFAULT_FACT = 4     # healpy.query_disc / query_polygon signature default (trusted; compared by the spy every run)
 
-if not getattr(py2lean.Translator, '_c09_fact_patch', False):
+# ------------------------------------------------------------------------------------------------------------------
+# hand-off slicer (int mode): what add_circles / add_poly / sky_within hand to healpy and to add_pixels.
+#   x = hp.query_disc(nside, vec, radius, inclusive=False, fact=4, nest=False, buff=None)
+#   x = hp.query_polygon(nside, vertices, inclusive=False, fact=4, nest=False, buff=None)
+#   x = hp.ang2pix(nside, theta, phi, nest=False, lonlat=False)
+# binds   __arg_nside (the translated nside expression, e.g. 2 ^ depth after the clamp),
+#         __kw_inclusive, __kw_nest (Bool literals; healpy's default False when absent), __kw_fact
+#         (integer literal, module-level integer constant, or healpy's default 4 when absent);
+#   self.add_pixels(x, d)   binds   __arg_insert_depth (the translated d), only if x is the variable the query was bound to.
+# `depth is None` is expressible when the target declares a companion parameter `depth_is_none` (Nat, 1 = None) and
+# `depth` has not been reassigned before the test.
+# Nothing here raises: what cannot be read becomes opaque, so only the C09 outputs asking for it are UNTRANSLATABLE
+# (other properties translate functions of regions.py too).
+# ------------------------------------------------------------------------------------------------------------------
+_HP_SIGS = {'query_disc': ['nside', 'vec', 'radius', 'inclusive', 'fact', 'nest', 'buff'],
+            'query_polygon': ['nside', 'vertices', 'inclusive', 'fact', 'nest', 'buff'],
+            'ang2pix': ['nside', 'theta', 'phi', 'nest', 'lonlat']}
+
+
+def _opaque(tr, name, t='N'):
+    tr.env[name] = ('?opaque?' + name, t)
+
+
+def _is_hp_call(call):
+    f = call.func
+    return isinstance(f, ast.Attribute) and f.attr in _HP_SIGS and isinstance(f.value, ast.Name) and f.value.id == 'hp'
+
+
+def _bind_hp_call(tr, call, target):
+    names = _HP_SIGS[call.func.attr]
+    outs = ['__arg_nside', '__kw_inclusive', '__kw_nest', '__kw_fact']
+    second = any(o in tr.env for o in outs)
+    argmap = {}
+    bad = second or any(isinstance(a, ast.Starred) for a in call.args) or any(k.arg is None for k in call.keywords) \
+        or len(call.args) > len(names)
+    if not bad:
+        for nm, a in zip(names, call.args):
+            argmap[nm] = a
+        for k in call.keywords:
+            if k.arg in argmap or k.arg not in names:
+                bad = True
+            argmap[k.arg] = k.value
+    if not bad and 'lonlat' in argmap and not (isinstance(argmap['lonlat'], ast.Constant) and argmap['lonlat'].value is False):
+        bad = True
+    if bad:
+        for o in outs:
+            _opaque(tr, o, 'B' if o in ('__kw_inclusive', '__kw_nest') else 'N')
+        tr._c09_query_target = None
+        return
+    tr._c09_query_target = target
+    try:
+        c, t, d = tr.expr(argmap['nside'])
+        if t != 'N':
+            raise py2lean.Untranslatable('nside is not a natural number')
+        tr.bind('__arg_nside', c, 'N', d)
+    except (py2lean.Untranslatable, KeyError):
+        _opaque(tr, '__arg_nside')
+    for kw, out in (('inclusive', '__kw_inclusive'), ('nest', '__kw_nest')):
+        if kw not in names:
+            continue
+        node = argmap.get(kw)
+        if node is None:
+            tr.bind(out, 'false', 'B', set())
+        elif isinstance(node, ast.Constant) and isinstance(node.value, bool):
+            tr.bind(out, 'true' if node.value else 'false', 'B', set())
+        else:
+            _opaque(tr, out, 'B')
+    if 'fact' in names:
+        node = argmap.get('fact')
+        v = None
+        if node is None:
+            v = HEALPY_DEFAULT_FACT
+        elif isinstance(node, ast.Constant) and isinstance(node.value, int) and not isinstance(node.value, bool):
+            v = node.value
+        elif isinstance(node, ast.Name) and node.id not in tr.env:
+            v = _module_int_constant(node.id)
+        if v is None or v < 0:
+            _opaque(tr, '__kw_fact')
+        else:
+            tr.bind('__kw_fact', f'({v} : Nat)', 'N', set())
+
+
+if not getattr(py2lean.Translator, '_c09_handoff_patch', False):
     _prev_stmt = py2lean.Translator.stmt
 
-    def _stmt_fact(self, s):
-        if self.mode == 'int' and isinstance(s, ast.Assign) and isinstance(s.value, ast.Call) \
-                and isinstance(s.value.func, ast.Attribute) and s.value.func.attr in ('query_disc', 'query_polygon') \
-                and isinstance(s.value.func.value, ast.Name) and s.value.func.value.id == 'hp':
-            # never raise here (other properties translate functions of regions.py too): anything this extension cannot
-            # express makes `__kw_fact` opaque, so only the C09 outputs that ask for it become UNTRANSLATABLE
-            kw = [k for k in s.value.keywords if k.arg == 'fact']
-            npos = 4 if s.value.func.attr == 'query_disc' else 3       # fact is the 5th / 4th positional parameter
-            v = None
-            if any(k.arg is None for k in s.value.keywords) or len(s.value.args) > npos:
-                pass                                                   # fact passed positionally or through **kwargs
-            elif not kw:
-                v = HEALPY_DEFAULT_FACT
-            elif isinstance(kw[0].value, ast.Constant) and isinstance(kw[0].value.value, int) and not isinstance(kw[0].value.value, bool):
-                v = kw[0].value.value
-            elif isinstance(kw[0].value, ast.Name) and kw[0].value.id not in self.env:
-                v = _module_int_constant(kw[0].value.id)
-            if v is None or v < 0 or '__kw_fact' in self.env:
-                self.env['__kw_fact'] = ('?opaque?__kw_fact', 'N')    # not a literal / module constant, or a second query
-            else:
-                self.bind('__kw_fact', f'({v} : Nat)', 'N', set())
+    def _stmt_handoff(self, s):
+        if self.mode == 'int' and isinstance(s, (ast.Assign, ast.AugAssign, ast.AnnAssign, ast.Expr)) and s.value is not None:
+            # a healpy query anywhere in a simple statement (x = hp.query_disc(..), acc.update(hp.query_disc(..)), ...)
+            qs = [n for n in ast.walk(s.value) if isinstance(n, ast.Call) and _is_hp_call(n)]
+            for q in qs:
+                _bind_hp_call(self, q, None)
+            # self.add_pixels(<pixels>, <depth>): the depth expression is what is regenerated (which pixels are handed over is
+            # tied by the comparison of the real region with the model's pixel set, not by the translator)
+            for c in [n for n in ast.walk(s.value) if isinstance(n, ast.Call) and isinstance(n.func, ast.Attribute)
+                      and n.func.attr == 'add_pixels' and isinstance(n.func.value, ast.Name) and n.func.value.id == 'self']:
+                ok = len(c.args) == 2 and not c.keywords and not isinstance(c.args[1], ast.Starred)
+                code = None
+                if ok:
+                    try:
+                        code, t, d = self.expr(c.args[1])
+                        if t != 'N':
+                            raise py2lean.Untranslatable('depth is not a natural number')
+                    except py2lean.Untranslatable:
+                        ok = False
+                prev = getattr(self, '_c09_insert_code', None)
+                if ok and prev is None and '__arg_insert_depth' not in self.env:
+                    self.bind('__arg_insert_depth', code, 'N', d)
+                    self._c09_insert_code = code
+                elif not (ok and prev == code):          # a second insertion at a different (or unreadable) depth
+                    _opaque(self, '__arg_insert_depth')
         return _prev_stmt(self, s)
 
-    py2lean.Translator.stmt = _stmt_fact
-    py2lean.Translator._c09_fact_patch = True
+    py2lean.Translator.stmt = _stmt_handoff
+
+    _prev_expr_int = py2lean.Translator.expr_int
+
+    def _expr_int_none(self, node):
+        if isinstance(node, ast.Compare) and len(node.ops) == 1 and isinstance(node.ops[0], (ast.Is, ast.IsNot)) \
+                and isinstance(node.comparators[0], ast.Constant) and node.comparators[0].value is None \
+                and isinstance(node.left, ast.Name):
+            flag = node.left.id + '_is_none'
+            if flag in self.params and self.env.get(node.left.id) == (py2lean.lean_ident(node.left.id), 'N'):
+                code = f'({flag} = 1)' if isinstance(node.ops[0], ast.Is) else f'(¬ ({flag} = 1))'
+                return code, 'B', {flag, py2lean.lean_ident(node.left.id)}
+            raise py2lean.Untranslatable(f'`{ast.unparse(node)}` on a variable without a declared *_is_none companion')
+        return _prev_expr_int(self, node)
+
+    py2lean.Translator.expr_int = _expr_int_none
+    py2lean.Translator._c09_handoff_patch = True
+
+
+# ------------------------------------------------------------------------------------------------------------------
+# column slicer (real mode), enabled by subst = {'__columns__': <array variable>, '__source__': <array parameter>}:
+# a two-column array program.  The array starts as a copy of the source (columns = parameters col0, col1) and is updated by
+#     A[:, [i, j]] = A[:, [k, l]]        (column permutation, literal indices, simultaneous)
+#     A[:, k] = e     /   A[:, k] op= e  (e may read A[:, k'])
+# and returned.  Any other store into A, any call that receives A, any loop touching A makes both columns opaque.
+# ------------------------------------------------------------------------------------------------------------------
+def _col(arr, k):
+    return f'{arr}_c{k}'
+
+
+def _col_index(sub, arr):
+    """A[:, k] -> k ;  A[:, [i, j]] -> (i, j) ;  otherwise None"""
+    if not (isinstance(sub, ast.Subscript) and isinstance(sub.value, ast.Name) and sub.value.id == arr):
+        return None
+    sl = sub.slice
+    if not (isinstance(sl, ast.Tuple) and len(sl.elts) == 2 and isinstance(sl.elts[0], ast.Slice)
+            and sl.elts[0].lower is None and sl.elts[0].upper is None and sl.elts[0].step is None):
+        return None
+    x = sl.elts[1]
+    if isinstance(x, ast.Constant) and isinstance(x.value, int) and not isinstance(x.value, bool) and x.value in (0, 1):
+        return x.value
+    if isinstance(x, ast.List) and len(x.elts) == 2 and all(isinstance(e, ast.Constant) and not isinstance(e.value, bool)
+                                                             and e.value in (0, 1) for e in x.elts):
+        return (x.elts[0].value, x.elts[1].value)
+    return None
+
+
+def _mentions(node, arr):
+    return any(isinstance(n, ast.Name) and n.id == arr for n in ast.walk(node))
+
+
+def _read_col(arr, k):
+    return ast.Subscript(value=ast.Name(id=arr, ctx=ast.Load()),
+                         slice=ast.Tuple(elts=[ast.Slice(), ast.Constant(value=k)], ctx=ast.Load()), ctx=ast.Load())
+
+
+if not getattr(py2lean.Translator, '_c09_column_patch', False):
+    _prev_stmt2 = py2lean.Translator.stmt
+    _prev_expr_real = py2lean.Translator.expr_real
+
+    def _both_opaque(self, arr):
+        for k in (0, 1):
+            _opaque(self, _col(arr, k), 'A')
+
+    def _stmt_columns(self, s):
+        if self.mode != 'real' or '__columns__' not in self.subst:
+            return _prev_stmt2(self, s)
+        arr, src = self.subst['__columns__'], self.subst['__source__']
+        if isinstance(s, (ast.Try, ast.If, ast.With)):
+            return _prev_stmt2(self, s)                      # recursed statement by statement (If merges environments)
+        if isinstance(s, (ast.For, ast.While)):
+            if _mentions(s, arr):
+                _both_opaque(self, arr)
+            return
+        if isinstance(s, ast.Return):
+            if isinstance(s.value, ast.Name) and s.value.id == arr and all(_col(arr, k) in self.env for k in (0, 1)):
+                for k in (0, 1):
+                    ssa, t = self.env[_col(arr, k)]
+                    if ssa.startswith('?opaque?'):
+                        _opaque(self, f'__ret_c{k}', 'A')
+                    else:
+                        self.bind(f'__ret_c{k}', ssa, 'A', {ssa})
+            elif s.value is not None:
+                for k in (0, 1):
+                    _opaque(self, f'__ret_c{k}', 'A')
+            return
+        if isinstance(s, ast.Assign) and len(s.targets) == 1:
+            tgt, val = s.targets[0], s.value
+            if isinstance(tgt, ast.Name) and tgt.id == arr:
+                is_copy = (isinstance(val, ast.Name) and val.id == src) \
+                    or (isinstance(val, ast.Call) and isinstance(val.func, ast.Attribute) and val.func.attr == 'copy'
+                        and isinstance(val.func.value, ast.Name) and val.func.value.id == src and not val.args and not val.keywords) \
+                    or (isinstance(val, ast.Call) and self.callee_name(val.func) in ('array', 'asarray', 'copy') and len(val.args) == 1
+                        and isinstance(val.args[0], ast.Name) and val.args[0].id == src and not val.keywords)
+                if is_copy:
+                    for k in (0, 1):
+                        p = py2lean.lean_ident(f'col{k}')
+                        self.bind(_col(arr, k), p, 'A', {p})
+                else:
+                    _both_opaque(self, arr)
+                return
+            idx = _col_index(tgt, arr)
+            if idx is not None:
+                try:
+                    if isinstance(idx, tuple):
+                        ridx = _col_index(val, arr)
+                        if not isinstance(ridx, tuple) or set(idx) != {0, 1}:
+                            raise py2lean.Untranslatable('not a column permutation')
+                        old = [self.expr_real(_read_col(arr, r)) for r in ridx]
+                        for k, (c, t, d) in zip(idx, old):
+                            self.bind(_col(arr, k), c, 'A', d)
+                    else:
+                        c, t, d = self.expr(val)
+                        self.bind(_col(arr, idx), c, 'A', d)
+                except py2lean.Untranslatable:
+                    _both_opaque(self, arr)
+                return
+        if isinstance(s, ast.AugAssign):
+            idx = _col_index(s.target, arr)
+            if isinstance(idx, int):
+                try:
+                    c, t, d = self.expr(ast.BinOp(left=_read_col(arr, idx), op=s.op, right=s.value))
+                    self.bind(_col(arr, idx), c, 'A', d)
+                except py2lean.Untranslatable:
+                    _both_opaque(self, arr)
+                return
+        # anything else that stores into the array or hands it to a call
+        touches = False
+        for n in ast.walk(s):
+            if isinstance(n, (ast.Assign, ast.AugAssign, ast.AnnAssign, ast.Delete)):
+                tg = n.targets if isinstance(n, (ast.Assign, ast.Delete)) else [n.target]
+                touches |= any(_mentions(t, arr) for t in tg)
+            if isinstance(n, ast.Call) and (any(_mentions(a, arr) for a in n.args) or any(_mentions(k.value, arr) for k in n.keywords)
+                                            or (isinstance(n.func, ast.Attribute) and _mentions(n.func.value, arr))):
+                touches = True
+        if touches:
+            _both_opaque(self, arr)
+            return
+        return _prev_stmt2(self, s)
+
+    def _expr_real_columns(self, node):
+        if '__columns__' in self.subst:
+            idx = _col_index(node, self.subst['__columns__'])
+            if isinstance(idx, int):
+                name = _col(self.subst['__columns__'], idx)
+                if name not in self.env or self.env[name][0].startswith('?opaque?'):
+                    raise py2lean.Untranslatable(f'column {idx} is not known here')
+                ssa, t = self.env[name]
+                return ssa, 'A', {ssa}
+        return _prev_expr_real(self, node)
+
+    py2lean.Translator.stmt = _stmt_columns
+    py2lean.Translator.expr_real = _expr_real_columns
+    py2lean.Translator._c09_column_patch = True
 
 _F = 'AegeanTools/regions.py'
 _H = 'Aegean.Model.C09'
+_D3 = ['depth_is_none', 'depth', 'maxdepth']
+_P3 = {'depth_is_none': 'N', 'depth': 'N', 'maxdepth': 'N'}
+_S3 = {'self.maxdepth': 'maxdepth'}
 
-TARGETS = [
-    dict(file=_F, func='Region.add_circles', mode='int', params={}, outputs=[('__kw_fact', 'discFact')],
-         fallback={'discFact': f'def discFact : Nat := {_H}.discFactHand'}),
-    dict(file=_F, func='Region.add_poly', mode='int', params={}, outputs=[('__kw_fact', 'polyFact')],
-         fallback={'polyFact': f'def polyFact : Nat := {_H}.polyFactHand'}),
+
+def _handoff_targets(func, prefix):
+    """one target per piece, so that one unreadable piece does not take the others down"""
+    sig3 = '(depth_is_none depth maxdepth : Nat)'
+    return [
+        dict(file=_F, func=func, mode='int', params={}, outputs=[('__kw_fact', prefix + 'Fact')],
+             fallback={prefix + 'Fact': f'def {prefix}Fact : Nat := {_H}.{prefix}FactHand'}),
+        dict(file=_F, func=func, mode='int', params=_P3, subst=_S3, outputs=[('__arg_nside', prefix + 'Nside')], all_params=_D3,
+             fallback={prefix + 'Nside': f'def {prefix}Nside {sig3} : Nat := {_H}.nsideHand depth_is_none depth maxdepth'}),
+        dict(file=_F, func=func, mode='int', params=_P3, subst=_S3, outputs=[('__arg_insert_depth', prefix + 'InsertDepth')], all_params=_D3,
+             fallback={prefix + 'InsertDepth': f'def {prefix}InsertDepth {sig3} : Nat := {_H}.clampHand depth_is_none depth maxdepth'}),
+        dict(file=_F, func=func, mode='int', params={}, outputs=[('__kw_inclusive', prefix + 'Inclusive')],
+             fallback={prefix + 'Inclusive': f'def {prefix}Inclusive : Bool := true'}),
+        dict(file=_F, func=func, mode='int', params={}, outputs=[('__kw_nest', prefix + 'Nest')],
+             fallback={prefix + 'Nest': f'def {prefix}Nest : Bool := true'}),
+    ]
+
+
+TARGETS = _handoff_targets('Region.add_circles', 'disc') + _handoff_targets('Region.add_poly', 'poly') + [
+    dict(file=_F, func='Region.sky_within', mode='int', params={'maxdepth': 'N'}, subst=_S3, outputs=[('__arg_nside', 'withinNside')],
+         all_params=['maxdepth'], fallback={'withinNside': f'def withinNside (maxdepth : Nat) : Nat := {_H}.withinNsideHand maxdepth'}),
+    dict(file=_F, func='Region.sky_within', mode='int', params={}, outputs=[('__kw_nest', 'withinNest')],
+         fallback={'withinNest': 'def withinNest : Bool := true'}),
+    dict(file=_F, func='Region.sky2ang', mode='real', params={'col0': 'A', 'col1': 'A'},
+         subst={'__columns__': 'theta_phi', '__source__': 'sky'},
+         outputs=[('__ret_c0', 'sky2angCol0'), ('__ret_c1', 'sky2angCol1')], all_params=['col0', 'col1'],
+         fallback={'sky2angCol0': f'def sky2angCol0 {{α : Type}} [R α] (col0 col1 : α) : α := {_H}.sky2angThetaHand col1',
+                   'sky2angCol1': f'def sky2angCol1 {{α : Type}} [R α] (col0 col1 : α) : α := col0'}),
     dict(file=_F, func='Region.sky2ang', mode='real', params={'col0': 'A'},
          subst={'theta_phi[:, 0]': 'col0'},
          outputs=[('__sub_col0', 'sky2angTheta')],
